@@ -185,7 +185,7 @@ class Ctx:
             if key in seen_kinds:
                 continue
             seen_kinds.add(key)
-            if shown < 12:
+            if shown < 40:
                 p = self.write_replay(v, shown)
                 print(f"VIOLATION property={self.pid} replay={p}")
                 print("   " + json.dumps(v, default=repr)[:600])
